@@ -4,20 +4,11 @@ From AS Require Import Base.Str Http.Cookie Url.Escape Oidc.Types Oidc.Prog Oidc
 (* (a) per check: the proved shape of an OK verdict (Oidc/Monitors.ok_shape, theorem C01_ok_justified);
    (b) across the history: the tokens the store answered with are the ones last bound to the presented
    session by a performed write - nothing was ever bound, or the session was removed => no OK. *)
-Definition justified_by_history (c : cfg) (g : ghost) (s : step) : bool :=
-  match s_trace s with
-  | (EGetTok sid', ATok (Some (Some t))) :: _ =>
-      match lookup sid' g with
-      | Some (GSTokens t0) => tokens_eqb t t0
-      | Some GSUnknown => true
-      | None => false
-      end
-  | _ => false
-  end.
+Definition justified_by_history (c : cfg) (g : ghost) (s : step) : bool := reads_bound g (s_trace s).
 
 Definition mon01 (c : cfg) (db : tokdb) (g : ghost) (s : step) : ghost * bool :=
   (ghost_step g s,
    mon_ok_justified c db (s_now s) (s_req s) (s_trace s) (s_resp s) &&
-   (if is_allow (s_resp s) then justified_by_history c g s else true)).
+   justified_by_history c g s).
 
 Definition run (hs : list hist) : list fail := take 20 (run_hists ghost [] mon01 0 hs).
